@@ -36,10 +36,11 @@ const (
 	KGen                  // workload generation (harness)
 	KFault                // harness level fault decisions (cut offsets, stop times, clock jumps)
 	KPrio                 // PCT mode: task priorities
+	KStall                // the task is descheduled on return from a send until everybody else has run dry
 	NumKinds
 )
 
-var KindNames = [NumKinds]string{"sched", "schedU", "gap", "select", "timeskip", "drop", "dup", "delay", "seg", "coalesce", "rand", "gen", "fault", "prio"}
+var KindNames = [NumKinds]string{"sched", "schedU", "gap", "select", "timeskip", "drop", "dup", "delay", "seg", "coalesce", "rand", "gen", "fault", "prio", "stall"}
 
 // NumProbes is the number of rare-condition counters a run carries (names are owned by sim/net and the harness).
 const NumProbes = 64
@@ -95,6 +96,7 @@ const (
 )
 
 type Task struct {
+	stalled   bool // descheduled until no other task can run and no event is due (StallPoint)
 	ID        int
 	Name      string
 	Site      string
@@ -136,6 +138,7 @@ type Stats struct {
 	Switches    int64
 	Events      int64
 	TimeSkips   int64
+	Stalls      int64
 	ClockJumps  int64
 	Tasks       int64
 	SelectMulti int64
@@ -193,14 +196,19 @@ type World struct {
 	ev    *Event
 	evSeq uint64
 
-	seq     uint64
-	serial  uint64
-	evPrio  int64 // PCT: priority of "deliver a due event"
-	lowPrio int64 // PCT: next demotion priority (decreasing)
-	epoch   uint64
-	hash    uint64
-	Quiet   bool // quiet phase: no time skipping, no faults (harness sets it)
-	NoSkip  bool
+	seq      uint64
+	serial   uint64
+	evPrio   int64 // PCT: priority of "deliver a due event"
+	lowPrio  int64 // PCT: next demotion priority (decreasing)
+	Procs    int   // simulated GOMAXPROCS / NumCPU (0 = not drawn yet; sim/runtime)
+	urgent   *Task // runs ahead of everybody until it blocks (AfterPoints)
+	ptTask   *Task // task parked in AfterPoints
+	ptLeft   int   // statements of other tasks still to go before ptTask is released
+	nStalled int   // tasks with stalled set
+	epoch    uint64
+	hash     uint64
+	Quiet    bool // quiet phase: no time skipping, no faults (harness sets it)
+	NoSkip   bool
 
 	aborting bool
 	ended    bool
@@ -689,8 +697,15 @@ func (w *World) pick(cur *Task, preempt bool) *Task {
 			w.setVerdict("step_budget", name, fmt.Sprintf("run exceeded %d steps (scheduling decisions included); last task %s", w.cfg.MaxSteps, name))
 			return nil
 		}
+		if u := w.urgent; u != nil {
+			if u.state == stDone {
+				w.urgent = nil
+			} else if w.taskReady(u) {
+				return u
+			}
+		}
 		n := 0
-		curReady := cur != nil && cur.state == stRunnable
+		curReady := cur != nil && cur.state == stRunnable && !cur.stalled
 		if curReady && !preempt {
 			cands[0] = cur
 			n = 1
@@ -699,7 +714,7 @@ func (w *World) pick(cur *Task, preempt bool) *Task {
 			if t == cur && (curReady) {
 				continue
 			}
-			if n < maxCands && w.taskReady(t) {
+			if n < maxCands && !t.stalled && w.taskReady(t) {
 				cands[n] = t
 				n++
 			}
@@ -743,6 +758,14 @@ func (w *World) pick(cur *Task, preempt bool) *Task {
 		skip := 0
 		if !w.Quiet && !w.NoSkip && nt > 0 && ne == 0 && w.ev != nil {
 			skip = 1
+		}
+		if total == 0 && w.nStalled > 0 {
+			// everybody else has run dry: the stalled tasks are back
+			for t := w.tasks; t != nil; t = t.next {
+				t.stalled = false
+			}
+			w.nStalled = 0
+			continue
 		}
 		if total == 0 {
 			// everybody is blocked: jump the clock to the next event
@@ -950,6 +973,9 @@ func Block(obj Waitable, arg int, reason string, deadline int64) bool {
 		runtime.Goexit()
 	}
 	t := w.cur
+	if w.urgent == t {
+		w.urgent = nil
+	}
 	t.wobj, t.Warg, t.Wreason, t.wdeadline = obj, arg, reason, deadline
 	t.TimedOut = false
 	t.state = stBlocked
@@ -989,8 +1015,14 @@ func (w *World) afterResume(t *Task) {
 		t.gap = 0
 		return
 	}
-	t.gap = Choose(33, KGap)
+	t.gap = gapTable[Choose(len(gapTable), KGap)]
 }
+
+// gapTable: the number of statements a resumed task runs before it is preempted (0 = not at all). Gaps of 1..8 are
+// listed twice because most windows sit right behind a blocking call; the tail reaches windows that lie hundreds
+// of statements after the last blocking call (e.g. behind an encoder) with a single preemption.
+var gapTable = [...]int{0, 1, 2, 3, 4, 5, 6, 7, 8, 1, 2, 3, 4, 5, 6, 7, 8, 9, 10, 11, 12, 13, 14, 15, 16, 17, 18, 19, 20,
+	21, 22, 23, 24, 28, 32, 40, 50, 64, 80, 100, 128, 160, 200, 256, 320, 400, 512}
 
 // Yield is a voluntary scheduling point (harness).
 //
@@ -1005,6 +1037,62 @@ func Yield() {
 	w.seq++
 	w.resched(t, false)
 	w.afterResume(t)
+}
+
+// StallPoint is called by the simulated transport when a send returns: with the run's stall probability the
+// calling task is descheduled, as a thread may be on return from a system call, and stays so until every other
+// task has run as far as it can and every due event has been delivered. No simulated time passes. This is what
+// opens the window between "the request is on the wire" and the sender's next statement to everybody else,
+// however many tasks compete for the processor.
+//
+//go:norace
+func StallPoint() {
+	w := W
+	if w == nil || w.aborting || w.Quiet || w.cur == nil || w.cur == w.urgent {
+		return
+	}
+	if !Chance(KStall) {
+		return
+	}
+	t := w.cur
+	w.Stats.Stalls++
+	if w.cfg.Verbose {
+		Tracef("STALL after send")
+	}
+	t.stalled = true
+	w.nStalled++
+	t.state = stRunnable
+	w.seq++
+	w.resched(t, true)
+	w.afterResume(t)
+}
+
+// Gosched is runtime.Gosched of rewritten SUT code: everybody else who can run goes first.
+//
+//go:norace
+func Gosched() {
+	w := W
+	if w.aborting {
+		return
+	}
+	t := w.cur
+	t.state = stRunnable
+	w.seq++
+	w.resched(t, true)
+	w.afterResume(t)
+}
+
+// CountLive counts the tasks that have not exited.
+//
+//go:norace
+func CountLive() int {
+	n := 0
+	for t := W.tasks; t != nil; t = t.next {
+		if t.state != stDone {
+			n++
+		}
+	}
+	return n
 }
 
 const fairEvery = 1024
@@ -1029,6 +1117,22 @@ func Point(id int) {
 		w.setVerdict("step_budget", t.Site, fmt.Sprintf("run exceeded %d steps; task %s (created at %s) has run %d points since it last blocked", w.cfg.MaxSteps, t.Name, t.Site, t.since))
 		w.endRun(t)
 		return
+	}
+	if w.ptTask != nil && w.ptTask != t && w.ptLeft > 0 {
+		w.ptLeft--
+		if w.ptLeft == 0 {
+			// the parked harness task is released exactly here, between two statements of t
+			w.Stats.Preemptions++
+			w.mix(10, uint64(id))
+			if w.cfg.Verbose {
+				Tracef("INTERRUPT at point %d", id)
+			}
+			w.urgent = w.ptTask
+			t.state = stRunnable
+			w.resched(t, true)
+			w.afterResume(t)
+			return
+		}
 	}
 	if t.gap > 0 {
 		t.gap--
@@ -1126,6 +1230,27 @@ func WaitState(c *StateCond, deadline int64) bool {
 		return true
 	}
 	return Block(c, 0, "harness: waiting for SUT state", deadline)
+}
+
+type pointWait struct{}
+
+//go:norace
+func (pointWait) Ready(*Task) bool { return W.ptLeft <= 0 }
+
+// AfterPoints parks the calling harness task until the other tasks have executed n more statements, then runs it
+// at once and ahead of everybody until it next blocks: a fault (a Stop, a Close) placed at an exact statement
+// boundary of the SUT rather than at a random time. false = the deadline passed first (the SUT went idle earlier).
+//
+//go:norace
+func AfterPoints(n int, deadline int64) bool {
+	w := W
+	if n <= 0 || w.aborting {
+		return true
+	}
+	w.ptLeft, w.ptTask = n, w.cur
+	ok := Block(pointWait{}, 0, "harness: waiting for SUT statements", deadline)
+	w.ptTask, w.ptLeft = nil, 0
+	return ok
 }
 
 // SetSched fixes a task's priority and the number of Points after which it is demoted (0 = never); call it right
